@@ -914,3 +914,52 @@ brk("B56d", "__contains__ looks at the errors dict",
 keep("P30", "total_errors without the temporary",
      [(E, '''        child_errors = sum(len(tree) for _, tree in self._contents.items())
         return len(self.errors) + child_errors''', '''        return len(self.errors) + sum(tree.total_errors for tree in self._contents.values())''')])
+
+
+# --------------------------------------------------------------------------- C14
+brk("B06", "resolve_fragment: swap the two replace calls",
+    [(V, '''            part = part.replace(u"~1", u"/").replace(u"~0", u"~")''', '''            part = part.replace(u"~0", u"~").replace(u"~1", u"/")''')], {"C14": "R14.2|"})
+
+brk("B07", "resolve_fragment: except LookupError only",
+    [(V, "            except (TypeError, LookupError):", "            except LookupError:")], {"C14": "R14.4|"})
+
+brk("B07b", "resolve_fragment: lstrip('/') (pre-fix shape of the leading slash removal)",
+    [(V, '''        fragment = unquote(fragment)
+        if fragment.startswith(u"/"):
+            fragment = fragment[1:]
+            parts = fragment.split(u"/")
+        else:
+            parts = fragment.split(u"/") if fragment else []
+''', '''        fragment = fragment.lstrip(u"/")
+        parts = unquote(fragment).split(u"/") if fragment else []
+''')], {"C14": "R14.1|"})
+
+brk("B07c", "resolve_fragment: unquote after the split (per token)",
+    [(V, '''        fragment = unquote(fragment)
+        if fragment.startswith(u"/"):''', '''        if fragment.startswith(u"/"):'''),
+     (V, '''            part = part.replace(u"~1", u"/").replace(u"~0", u"~")''', '''            part = unquote(part).replace(u"~1", u"/").replace(u"~0", u"~")''')], {"C14": "R14.2|"})
+
+brk("B07d", "resolve_fragment: str admitted as an array",
+    [(V, '''                isinstance(document, Sequence) and
+                not isinstance(document, str) and
+                _ARRAY_INDEX.fullmatch(part)''', '''                isinstance(document, Sequence) and
+                _ARRAY_INDEX.fullmatch(part)''')], {"C14": "R14.3|"})
+
+brk("B07e", "resolve_fragment: index regex used with match (prefix match)",
+    [(V, "                _ARRAY_INDEX.fullmatch(part)", "                _ARRAY_INDEX.match(part)")], {"C14": "R14.3|"})
+
+brk("B07f", "resolve_fragment: index regex admits leading zeros",
+    [(V, '''_ARRAY_INDEX = re.compile(u"0|[1-9][0-9]*")''', '''_ARRAY_INDEX = re.compile(u"[0-9]+")''')], {"C14": "R14.3|"})
+
+brk("B07g", "resolve_fragment: empty fragment tokenised",
+    [(V, '''            parts = fragment.split(u"/") if fragment else []''', '''            parts = fragment.split(u"/")''')], {"C14": "R14.4|"})
+
+brk("B07h", "resolve_fragment: ~0 never unescaped",
+    [(V, '''            part = part.replace(u"~1", u"/").replace(u"~0", u"~")''', '''            part = part.replace(u"~1", u"/")''')], {"C14": "R14.2|"})
+
+brk("B07i", "resolve_fragment: failed lookup returns None instead of raising",
+    [(V, '''            except (TypeError, LookupError):
+                raise exceptions.RefResolutionError(
+                    "Unresolvable JSON pointer: %r" % fragment
+                )''', '''            except (TypeError, LookupError):
+                return None''')], {"C14": "R14.4|"})
